@@ -69,6 +69,9 @@ impl Sys for Single {
         if p.c14 {
             n += 1;
         }
+        if p.c11 {
+            n += World::C11_PROBES as usize;
+        }
         if p.c08 {
             n += World::C08_PROBES as usize;
         }
@@ -98,6 +101,12 @@ impl Sys for Single {
                 return self.0.probe_c14();
             }
             i -= 1;
+        }
+        if p.c11 {
+            if i < World::C11_PROBES as usize {
+                return self.0.probe_c11(i as u8);
+            }
+            i -= World::C11_PROBES as usize;
         }
         self.0.probe_c08(i as u8)
     }
